@@ -1157,8 +1157,8 @@ void gen_c08(Gen &g) {
     cr.k = target + 400000;
     t.ops.push_back(cr);
     p.world.step_budget = 400000000000L;
-    p.world.max_anon = 40L << 20;
-    p.world.mem_policy = 0;  // in place by default: every move takes another 40 MiB of the arena's address space; the moves are placed below
+    p.world.max_anon = 256L << 20;
+    p.world.mem_policy = 0;  // in place by default: every move takes twice the mapping's size of the arena's 3 GiB; the moves are placed below
     std::vector<std::string> pool;
     for (int L = 10; L <= 11; L++)
       for (int idx : corpus_by_len(L))
@@ -1181,9 +1181,9 @@ void gen_c08(Gen &g) {
       Op a = g.mk(counting ? OP_COUNT : OP_ASM, 0);
       a.c = counting ? r.range(2, 64) : 0;
       a.lines.assign(prog.begin() + at, prog.begin() + end);
-      // a dozen of this call's growth steps move the mapping (early ones, late ones, and the ones around 2^24 bytes)
+      // nine of this call's growth steps move the mapping (early ones, late ones, random ones in between)
       long steps = (long)(end - at) * 10 / lib_geometry().step;
-      for (int m = 0; m < 12 && steps > 0; m++) {
+      for (int m = 0; m < 9 && steps > 0; m++) {
         EnvAns e;
         e.call = K_MREMAP;
         e.nth = (int)(m < 3 ? r.range(0, 3) : m < 6 ? steps - 1 - r.range(0, 40) : r.range(0, steps));
